@@ -368,7 +368,7 @@ func ruleGateCap(w *World, r *Report) {
 
 func init() {
 	register(&propertySpec{
-		ID: "C19",
+		ID:      "C19",
 		Explain: "Static must-pass-through analysis over SSA + the VTA call graph of /repo's current tree. Decides structural necessary conditions of C19: (GATE-W/R/E) every path from each exported core.Location method and from each root function (JS Env callbacks, goroutine bodies, closures with no rulio caller) to a mutating / revealing core.State call passes the success edge of CheckWrite / CheckRead / Enabled, with the check placed before the first state access (so a refusal leaves state and storage untouched); (GATE-UNTRUSTED) the deliberately ungated mutators are called only from allow-listed trusted code; (GATE-KEYS) the gates compare the right context key with the right property, honour read-only, and sub-contexts inherit the keys. It does NOT decide behavioural equality with the right keys, nor value-level details of the key comparison beyond operand provenance.",
 		Assume: []string{
 			"VTA call graph over-approximates dynamic dispatch; otto calls the Env closures reflectively, so every function without a rulio caller is treated as an entry",
